@@ -29,3 +29,21 @@ _W64 = _np.asarray([0.1, 0.2, 0.3], dtype=_np.float64)
 @onnx_function
 def add_np64_const(x):
     return x + _W64
+
+
+@onnx_function
+class Project(nnx.Module):
+    def __init__(self, din, dout):
+        self.lin = nnx.Linear(din, dout, rngs=nnx.Rngs(0))
+
+    def __call__(self, x):
+        return self.lin(x)
+
+
+@onnx_function
+class Outer(nnx.Module):
+    def __init__(self):
+        self.p = Project(3, 4)
+
+    def __call__(self, x):
+        return self.p(x) * 2.0
